@@ -48,6 +48,12 @@ Theorem C08_split_off_panics_iff : forall l a b,
   unwound (op_split_off l a b) = true <-> (b < a \/ length l < b).
 Proof. exact split_off_panics_iff. Qed.
 
+Theorem C08_splice_spec : forall dp l a b repl take, a <= b <= length l ->
+  final (op_splice dp l a b repl take) = firstn a l ++ repl ++ skipn b l.
+Proof. exact splice_spec. Qed.
+Theorem C08_into_iter_leaves_nothing : forall dp l kf kb, final (op_into_iter dp l kf kb) = [].
+Proof. exact into_iter_leaves_nothing. Qed.
+
 Print Assumptions C08_truncate_spec.
 Print Assumptions C08_remove_spec.
 Print Assumptions C08_remove_panics_iff.
@@ -57,3 +63,5 @@ Print Assumptions C08_dedup_is_std.
 Print Assumptions C08_drain_spec.
 Print Assumptions C08_extract_if_spec.
 Print Assumptions C08_split_off_panics_iff.
+Print Assumptions C08_splice_spec.
+Print Assumptions C08_into_iter_leaves_nothing.
